@@ -76,6 +76,15 @@ CONFIG = {
              "that actually ran compared with the eligibility model; through the agent: failed and read-only operations start nothing, a successful add starts a round, a hanging hook delays nobody; "
              "non-trivial = every case with a notification; distinct = distinct case terms",
     ),
+    "C12": dict(
+        drivers=[("cmd/whawty-auth", "main")], run="C12", shard=8, timeout=1200, case_type="ucase",
+        header="From Whawty Require Import Names Record Store StoreSpec Agent AgentInst.",
+        rule="40 (thorough 600) login sequences through the agent (Store interface and the saslauthd callback) on stores mixing records of three parameter sets and both algorithms with "
+             "auxiliary data, every choice of default, upgrades local and off, right and near-miss passwords; after each login the driver waits for the queued upgrade and snapshots the directory; "
+             "compared with handle_req ; handle_upgrade of the agent model instantiated with the extracted structure, and judged by the upgrade monitor (rewrite only after a successful login "
+             "of an upgradeable record, under the default set, same password verifies, flag and auxiliary data kept, others untouched; no rewrite when off; rewrite does happen on an idle agent); "
+             "6 (thorough 60) remote-mode runs with a master agent behind httptest: slave store untouched, master upgraded only after a successful login; non-trivial = every case; distinct = distinct case terms",
+    ),
     "C10": dict(
         drivers=[("cmd/whawty-auth", "main")], run="C10", shard=50, timeout=900,
         rule="(a) cap() of every request channel and of the hooks channels, and the aliasing of the upgrade channel, read in-process and compared with the facts tools/facts extracted "
